@@ -13,6 +13,10 @@ from .mir import kind_of, show
 RET = "ret"
 
 
+class MultiRet(list):
+    """several return states of one activation, kept apart by the (constant) boolean return value"""
+
+
 class Engine(Interp):
     def __init__(self, ctx):
         super().__init__(ctx)
@@ -510,6 +514,23 @@ class Engine(Interp):
                 if mkey:
                     ctx.memo[mkey] = (None, None, ctx.obl[n_obl0:], [])
                 return []
+            if isinstance(out, MultiRet):
+                res = []
+                jf = getattr(ctx, "joined_fids", ())
+                for rst in out:
+                    m = {}
+                    for v in (rst.itv if fid in jf else ()):
+                        if type(v) is tuple and v and v[0] == "j" and type(v[1]) is tuple and ((v[1][0] == "ret" and v[1][1] == fid) or v[1][0] == fid):
+                            m[v] = ctx.fresh()
+                    if m:
+                        rename_bulk(rst, m)
+                    ret = rst.store.get((fid, 0), UNIT)
+                    for k in [k for k in rst.store if k[0] == fid]:
+                        del rst.store[k]
+                    res.append((ret, rst))
+                if fid in jf:
+                    jf.discard(fid)
+                return res
             rst = out
             # join values created inside this activation carry names derived from the frame id; a second
             # activation from the same call site would reuse them and alias values that are still alive
@@ -860,12 +881,21 @@ class Engine(Interp):
                         gc_state(nh, ctx.pins)
                         heads[sk] = nh
                 final_ret = None
+                groups = {}
+                split = ctx.hooks.get("split_bool_ret")
+                split = bool(split and split(fr.inst) and self.prog.ty(fr.body.locals[0]["ty"]).tag == "Bool")
                 for kk in sorted(ret_edges, key=str):
                     s2 = ret_edges[kk]
+                    if split:
+                        rv = s2.store.get((fr.id, 0))
+                        c = s2.const(rv) if type(rv) is I else None
+                        groups[c] = s2.copy() if c not in groups else join_states(ctx, groups[c], s2.copy(), ("ret", fr.id, c))
                     final_ret = s2 if final_ret is None else join_states(ctx, final_ret, s2, ("ret", fr.id))
             finally:
                 if not last:
                     ctx.quiet -= 1
+        if split and len(groups) == 2 and None not in groups:
+            return MultiRet([groups[k] for k in sorted(groups)])
         return final_ret
 
     def debug_state(self, fr, bb, visit, widen, st, incoming):
@@ -881,6 +911,15 @@ class Engine(Interp):
                         if type(vv) is Md and "len" in vv.d and type(vv.d["len"]) is I:
                             lens.append(s.facts.get((v.vid, vv.d["len"].vid)))
                     out.append(f"{tag}{nm}={s.itv[v.vid]}{' F' + str(len(fs)) if fs else ''}{' rel' + str(lens) if nm == 'index' else ''}")
+        import os
+        if os.environ.get("DBG_LEN"):
+            out = []
+            for tag, s in (("", st), ("in:", incoming)):
+                sqs = [(k, v) for k, v in s.store.items() if type(v) is Sq and k[0] == fr.id]
+                rngs = [(k, v) for k, v in s.store.items() if type(v) is Ag and k[0] == fr.id and len(v.f) == 2 and all(type(x) is I for x in v.f)]
+                for k, v in sqs:
+                    for k2, r in rngs:
+                        out.append(f"{tag}len{k[1]}={s.itv[v.len.vid]} start{k2[1]}={s.itv[r.f[0].vid]} len-start<={s.bound(v.len.vid, r.f[0].vid)} start-len<={s.bound(r.f[0].vid, v.len.vid)}")
         print(f"  [join bb{bb} visit {visit}{' WIDEN' if widen else ''}] " + " ".join(out))
 
     def thresholds_of(self, body):
